@@ -82,7 +82,10 @@ def oracle_flow(case):
             ks, sel = call(select_copula, np.column_stack((a, b)), allow=(ValueError,), what='select_copula')
             if ks == 'ok':
                 sfam, sth = type(sel).__name__.lower(), float(sel.theta)
-                require(sfam == fam and abs(sth - theta) <= 1e-9 * max(1, abs(theta)),
+                # Frank's theta comes from a least-squares solve (xtol/ftol 1e-8): the column order inside the vine may differ
+                # from (L, R), which changes the iterates at the solver's tolerance
+                ttol = 1e-6 if fam == 'frank' else 1e-9
+                require(sfam == fam and abs(sth - theta) <= ttol * max(1, abs(theta)),
                         'tree %d edge (%d,%d|%r) carries %s(theta=%r) but select_copula on its two input columns returns %s(theta=%r)'
                         % (k, L, R, sorted(D), fam, theta, sfam, sth), tag='edge-copula', detail={'tree': k})
             Ue = np.asarray(e['U'], dtype=float)
